@@ -93,6 +93,9 @@ pub struct Case {
     pub context: String,
     /// parent does (state-neutral) work while a background/coproc body runs
     pub parent_busy: bool,
+    /// replay files of other coproc findings: do not judge the coprocess's own pipe descriptors
+    #[serde(default)]
+    pub ignore_coproc_pipes: bool,
 }
 
 const SETUP: &str = r#"v1=one; v2=two; export v3=three; v4=four; declare -i v5=5; a1=(x y z); declare -A m1=([k]=v)
@@ -201,7 +204,10 @@ fn diff_lines(a: &[String], b: &[String]) -> String {
     bvcommon::exec::trunc(&out.join("\n"), 1500)
 }
 
-pub struct Isolation;
+pub struct Isolation {
+    /// classes of listed findings that still reproduce
+    pub known: std::collections::BTreeSet<String>,
+}
 
 fn category(m: &str) -> &'static str {
     MUTATORS.iter().chain(PROCESS_WIDE.iter()).find(|(_, c)| *c == m).map(|(k, _)| *k).unwrap_or("?")
@@ -267,7 +273,20 @@ impl Layer for Isolation {
             let outcome = if again.status == Status::Timeout && b.status != Status::Timeout && b.wall_ms < 1000 { Outcome::Fail(format!("brush hangs (bash finished in {} ms)", b.wall_ms)) } else { Outcome::Inconclusive("timeout".into()) };
             return Verdict { outcome, labels, nontrivial, sample: None, weight: 1 };
         }
-        let outcome = match dumps(&o) {
+        // known finding C12-coproc-descriptors-stay-open: in the coproc context the pipe descriptors the
+        // shell itself created for the coprocess are not compared (every other line still is)
+        let drop_coproc_pipes = c.context == "coproc" && (c.ignore_coproc_pipes || self.known.contains("coproc_descriptors_outlive_coprocess"));
+        let strip = |v: Vec<String>| -> Vec<String> {
+            if drop_coproc_pipes {
+                v.into_iter().filter(|l| !(l.starts_with("fd ") && l.ends_with("-> pipe"))).collect()
+            } else {
+                v
+            }
+        };
+        if drop_coproc_pipes {
+            labels.push("excluded-lines:coproc-pipes".into());
+        }
+        let outcome = match dumps(&o).map(|(a, b)| (strip(a), strip(b))) {
             None => {
                 // the parent never reached the second dump
                 let b = run_case(ShellKind::Bash, &spec);
@@ -309,7 +328,7 @@ pub fn strategy(_ctx: &Ctx) -> BoxedStrategy<Case> {
     (proptest::collection::vec(one, 1..=6), proptest::sample::select(CONTEXTS.to_vec()), proptest::bool::weighted(0.5))
         .prop_map(|(muts, context, parent_busy)| {
             let busy = parent_busy && (context == "background" || context == "coproc");
-            Case { muts, context: context.to_string(), parent_busy: busy }
+            Case { muts, context: context.to_string(), parent_busy: busy, ignore_coproc_pipes: false }
         })
         .boxed()
 }
@@ -324,7 +343,7 @@ pub fn run(run: &mut PropRun, ctx: &Ctx) {
         .into();
     run.assumptions.push("bash 5.2.15 used as a guard only (its dumps are not compared with brush's)".into());
     let n = ctx.tier.pick(5000, 80_000);
-    let rep = explore(&Isolation, strategy(ctx), n, ctx);
+    let rep = explore(&Isolation { known: ctx.active_classes.clone() }, strategy(ctx), n, ctx);
     let n64 = n as u64;
     let mut floors: Vec<(String, u64)> = CONTEXTS.iter().map(|c| (format!("context:{c}"), n64 / 25)).collect();
     for k in ["var", "func", "opt", "alias", "trap", "dir", "args", "fd", "exit", "jump"] {
@@ -341,7 +360,7 @@ pub fn run(run: &mut PropRun, ctx: &Ctx) {
 
 pub fn replay(layer: &str, case: &serde_json::Value) -> Result<(String, Verdict), String> {
     match layer {
-        "isolation" => replay_case(&Isolation, case),
+        "isolation" => replay_case(&Isolation { known: Default::default() }, case),
         _ => Err(format!("C12: unknown layer {layer}")),
     }
 }
